@@ -67,6 +67,27 @@ def selftest(tier):
     ok &= expect("TapeTrace rejects 'requested cell not accessible'", v["check-false"]["verdict"] == "rejected")
     ok &= expect("TapeTrace rejects a read that allocated", v["read-allocated"]["verdict"] == "rejected")
     ok &= expect("TapeTrace rejects a history that ended in SIGSEGV", v["sigsegv"]["verdict"] == "rejected")
+    # ---- TapeTrace, far positions (pairs far*2^62 + ptr) and unsatisfiable requests
+    from .props_tape import pending_event
+    fc = [["write", 0, 1, 0, 0], ["mov", 0, 0, 1, 0], ["mov", 0, 0, 1, 0], ["read", 0, 0, 0, 0], ["mov", 0, 0, -2, 0],
+          ["read", 0, 0, 0, 0]]
+    ab = [["write", 0, 1, 0, 0], ["mov", 0, 0, 1, 0], ["write", 0, 1, 0, 0]]
+    fa = pool.stream_requests(hv, [{"op": "tape", "id": "f", "w": 32, "calls": fc},
+                                   {"op": "tape", "id": "a", "w": 32, "calls": ab}])
+    gf = {"id": "far-good", "events": fa[0]["events"], "end": fa[0]["end"], "refused": 0, "pending": []}
+    bf1 = copy.deepcopy(gf); bf1["id"] = "far-move-lost"; bf1["events"][1][6] = 0
+    ga = {"id": "unsat-good", "events": fa[1]["events"], "end": fa[1]["end"], "refused": fa[1]["refused"],
+          "pending": pending_event(fa[1]["pending"])}
+    ba = copy.deepcopy(ga); ba["id"] = "unsat-returned"; ba["end"] = "ok"; ba["pending"] = []
+    ba["events"].append(["write", 0, 1, 0, 1, 0, 0, 0])
+    path = os.path.join(workdir("selftest"), "tapefar.ndjson")
+    tlc.write_ndjson(path, [gf, bf1, ga, ba])
+    res = tlc.run_tlc("TapeTrace", env={"CASES": path}, workers=4, timeout=300)
+    v = {r["id"]: r for r in res.records if "verdict" in r}
+    ok &= expect("TapeTrace accepts a history that goes 2^63 cells away and comes back", v["far-good"]["verdict"] == "accepted", str(v.get("far-good")))
+    ok &= expect("TapeTrace rejects it when one far move is lost", v["far-move-lost"]["verdict"] == "rejected", str(v.get("far-move-lost")))
+    ok &= expect("TapeTrace accepts abort/panic on an unsatisfiable request", v["unsat-good"]["verdict"] == "accepted" and "unsatisfiable" in v["unsat-good"]["why"], str(v.get("unsat-good")))
+    ok &= expect("TapeTrace rejects a return from an unsatisfiable request", v["unsat-returned"]["verdict"] == "rejected")
     # ---- SmallVec
     sc = [{"op": "new", "a": 1, "b": 0, "vals": []}, {"op": "push", "a": 1, "b": 0, "vals": [1]},
           {"op": "push", "a": 1, "b": 0, "vals": [1]}, {"op": "dedup", "a": 1, "b": 0, "vals": []},
